@@ -537,10 +537,15 @@ static int pad_pkcs2(bn_t m, size_t *p_len, size_t m_len, size_t k_len,
 				pad = (uint8_t)t->dp[0];
 				if (pad == RSA_PSS) {
 					int r = 1;
-					for (int i = m_len; i < 8 * k_len; i++) {
+					/* The leftmost 8emLen - emBits bits must be zero, and
+					 * the integer must fit in emLen bytes. */
+					for (int i = m_len - 1; i < 8 * k_len; i++) {
 						if (bn_get_bit(m, i) != 0) {
 							r = 0;
 						}
+					}
+					if (bn_bits(m) > 8 * k_len) {
+						r = 0;
 					}
 					bn_rsh(m, m, 8);
 					bn_mod_2b(t, m, 8 * RLC_MD_LEN);
@@ -549,10 +554,17 @@ static int pad_pkcs2(bn_t m, size_t *p_len, size_t m_len, size_t k_len,
 					bn_write_bin(h1, RLC_MD_LEN, t);
 					md_mgf(mask, k_len - RLC_MD_LEN - 1, h1, RLC_MD_LEN);
 					bn_read_bin(t, mask, k_len - RLC_MD_LEN - 1);
+					/* maskedDB may have fewer digits than the mask. */
+					bn_grow(m, t->used);
+					for (int i = m->used; i < t->used; i++) {
+						m->dp[i] = 0;
+					}
+					m->used = RLC_MAX(m->used, t->used);
 					for (int i = 0; i < t->used; i++) {
 						m->dp[i] ^= t->dp[i];
 					}
 					m->dp[0] ^= 0x01;
+					bn_trim(m);
 					for (int i = m_len - 1; i < 8 * k_len; i++) {
 						bn_set_bit(m, i - ((RLC_MD_LEN + 1) * 8), 0);
 					}
@@ -598,11 +610,19 @@ int cp_rsa_gen(rsa_t pub, rsa_t prv, size_t bits) {
 		bn_new(t);
 		bn_new(r);
 
-		/* Generate different primes p and q. */
+		bn_set_2b(pub->e, 16);
+		bn_add_dig(pub->e, pub->e, 1);
+
+		/* Generate different primes p and q with gcd(e, (p-1)(q-1)) = 1. */
 		do {
 			bn_gen_prime(prv->crt->p, bits / 2);
 			bn_gen_prime(prv->crt->q, bits / 2);
-		} while (bn_cmp(prv->crt->p, prv->crt->q) == RLC_EQ);
+			bn_sub_dig(t, prv->crt->p, 1);
+			bn_sub_dig(r, prv->crt->q, 1);
+			bn_mul(t, t, r);
+			bn_gcd(r, t, pub->e);
+		} while (bn_cmp(prv->crt->p, prv->crt->q) == RLC_EQ ||
+				bn_cmp_dig(r, 1) != RLC_EQ);
 
 		/* Swap p and q so that p is smaller. */
 		if (bn_cmp(prv->crt->p, prv->crt->q) != RLC_LT) {
@@ -905,13 +925,17 @@ int cp_rsa_ver(uint8_t *sig, size_t sig_len, const uint8_t *msg, size_t msg_len,
 
 	pad_len = (!hash ? RLC_MD_LEN : msg_len);
 
-#if CP_RSAPD == PKCS2
-	size = bn_bits(pub->crt->n) - 1;
-	if (size % 8 == 0) {
-		size = size / 8 - 1;
-	} else {
-		size = bn_size_bin(pub->crt->n);
+	/* The signature is an octet string of the length of the modulus. */
+	if (sig_len != (size_t)bn_size_bin(pub->crt->n)) {
+		RLC_FREE(h1);
+		RLC_FREE(h2);
+		return 0;
 	}
+
+#if CP_RSAPD == PKCS2
+	/* emLen = ceil((modBits - 1) / 8), as in cp_rsa_sig(). */
+	size = bn_bits(pub->crt->n) - 1;
+	size = (size / 8) + (size % 8 > 0);
 	if (pad_len > (size - 2)) {
 		return 0;
 	}
@@ -931,16 +955,21 @@ int cp_rsa_ver(uint8_t *sig, size_t sig_len, const uint8_t *msg, size_t msg_len,
 
 		bn_read_bin(eb, sig, sig_len);
 
+		/* The signature representative must be in [0, n - 1]. */
+		int in_range = (bn_cmp(eb, pub->crt->n) == RLC_LT);
+
 		bn_mxp(eb, eb, pub->e, pub->crt->n);
 
 		int operation = (!hash ? RSA_VER : RSA_VER_HASH);
 
 #if CP_RSAPD == BASIC
-		if (pad_basic(eb, &pad_len, RLC_MD_LEN, size, operation) == RLC_OK) {
+		if (in_range && pad_basic(eb, &pad_len, RLC_MD_LEN, size,
+						operation) == RLC_OK) {
 #elif CP_RSAPD == PKCS1
-		if (pad_pkcs1(eb, &pad_len, RLC_MD_LEN, size, operation) == RLC_OK) {
+		if (in_range && pad_pkcs1(eb, &pad_len, RLC_MD_LEN, size,
+						operation) == RLC_OK) {
 #elif CP_RSAPD == PKCS2
-		if (pad_pkcs2(eb, &pad_len, bn_bits(pub->crt->n), size,
+		if (in_range && pad_pkcs2(eb, &pad_len, bn_bits(pub->crt->n), size,
 						operation) == RLC_OK) {
 #endif
 
@@ -967,13 +996,18 @@ int cp_rsa_ver(uint8_t *sig, size_t sig_len, const uint8_t *msg, size_t msg_len,
 			}
 #else
 			memset(h1, 0, RLC_MAX(msg_len, RLC_MD_LEN));
-			bn_write_bin(h1, size - pad_len, eb);
 
-			if (!hash) {
+			if (size - pad_len != (!hash ? RLC_MD_LEN : msg_len)) {
+				/* Recovered data of the wrong length is never valid (and
+				 * would not fit the buffer). */
+				result = RLC_NE;
+			} else if (!hash) {
+				bn_write_bin(h1, size - pad_len, eb);
 				md_map(h2, msg, msg_len);
 				/* Everything went ok, so signature status is changed. */
 				result = util_cmp_sec(h1, h2, RLC_MD_LEN);
 			} else {
+				bn_write_bin(h1, size - pad_len, eb);
 				/* Everything went ok, so signature status is changed. */
 				result = util_cmp_sec(h1, msg, msg_len);
 			}
